@@ -66,6 +66,10 @@ def strategy(tier):
         "fixK": st.booleans(),       # T2 (generalised): the stiffness matrix is a constant signal, only the mass depends on x
         "nonsym": st.booleans(),     # T4/T5: non-symmetric system matrix (AssembleGeneral with a non-symmetric element matrix)
         "agg": st.sampled_from(["pnorm", "ks", "soft"]), "agg_opt": st.sampled_from(["plain", "active", "undamped"]),
+        # T1 (conv) / T7: fixed values registered on the FilterConv after construction (a solid strip outside the xmin
+        # boundary via override_padded_values, or a non-design block via override_values), as in
+        # examples/topology_optimization/ex_compliance_padding_filter.py
+        "fc_override": st.sampled_from(["none", "none", "padded", "values"]),
         "final_k": st.integers(0, 3), "final_seeds": st.lists(st.integers(0, 3), min_size=1, max_size=3),
         "final_mode": st.sampled_from(SET_MODES),
     })
@@ -139,6 +143,23 @@ def _even_domain(o):
     return pym.DomainDefinition(2 * ((o["nx"] + 1) // 2), 2 * ((o["ny"] + 1) // 2))
 
 
+def _filterconv(pym, x, xf, dom, radius, how, labels):
+    if how == "none":
+        return pym.FilterConv(x, xf, dom, radius=radius)
+    m = pym.FilterConv(x, xf, dom, radius=radius, xmin_bc=0, xmax_bc="symmetric", ymin_bc=0, ymax_bc=0)
+    if how == "padded":
+        xr = np.arange(m.pad_sizes[0])
+        yr = m.pad_sizes[1] + np.arange(dom.nely // 3, dom.nely - dom.nely // 3)
+        ex, ey, ez = np.meshgrid(xr, yr, np.array([0]))
+        m.override_padded_values((ex, ey, ez), 1.0)
+    else:
+        mask = np.zeros((dom.nelx, dom.nely, 1), dtype=bool)
+        mask[dom.nelx // 2:, :max(1, dom.nely // 2), 0] = True
+        m.override_values(mask, 0.75)
+    labels.append("filterconv_override:" + how)
+    return m
+
+
 def build(case):
     """Deterministic construction of the template network from the case (called twice: used objects and fresh)."""
     import pymoto as pym
@@ -156,7 +177,7 @@ def build(case):
         xf, xs, K, u, c = S("xf"), S("xs"), S("K"), S("u"), S("c")
         mods = []
         if o["filter"] == "conv":
-            mods.append(pym.FilterConv(x, xf, dom, radius=1.5))
+            mods.append(_filterconv(pym, x, xf, dom, 1.5, o.get("fc_override", "none") if dom.dim == 2 else "none", labels))
         else:
             mods.append(pym.DensityFilter(x, xf, dom, radius=1.5))
         mods.append(pym.MathGeneral(xf, xs, expression="0.1 + 0.9*inp0^3"))
@@ -324,7 +345,7 @@ def build(case):
         dom = pym.DomainDefinition(max(3, o["nx"]), max(3, o["ny"]))
         designs = [rng.uniform(0.2, 1.0, dom.nel) for _ in range(4)]
         x, xf, y = S("x", designs[0].copy()), S("xf"), S("y")
-        mods = [pym.FilterConv(x, xf, dom, radius=1.3)]
+        mods = [_filterconv(pym, x, xf, dom, 1.3, o.get("fc_override", "none"), labels)]
         kw = {}
         if o["agg_opt"] == "active":
             # removes the int(0.12 n) lowest and highest entries (n >= 9): never empty, whatever the ties
